@@ -12,6 +12,9 @@ checker annotates it* yields a value of type `τ`, or fails with a division by z
 namespace ExprModel
 open Spec
 
+-- `E`: the failures a statement about evaluation tolerates (`E .divzero` for the scalar fragment)
+variable {E : ErrClass → Prop} {P : Ctx → Prop}
+
 /-! ### scalar types and their values -/
 
 def RKind.isScalar : RKind → Bool
@@ -203,26 +206,29 @@ def scalarOK (t : Option OTy) : Bool :=
   | none => false
 
 /-- every sub-expression has a scalar static type -/
-def scalarTyped (cfg : CheckCfg) : Node → Bool
-  | .unary m op x => scalarOK (synth cfg [] (.unary m op x)) && scalarTyped cfg x
-  | .binary m op l r => scalarOK (synth cfg [] (.binary m op l r)) && scalarTyped cfg l && scalarTyped cfg r
-  | .cond m c a b => scalarOK (synth cfg [] (.cond m c a b)) && scalarTyped cfg c && scalarTyped cfg a && scalarTyped cfg b
-  | n => scalarOK (synth cfg [] n)
+def scalarTyped (cfg : CheckCfg) (cs : List OTy) : Node → Bool
+  | .unary m op x => scalarOK (synth cfg cs (.unary m op x)) && scalarTyped cfg cs x
+  | .binary m op l r => scalarOK (synth cfg cs (.binary m op l r)) && scalarTyped cfg cs l && scalarTyped cfg cs r
+  | .cond m c a b => scalarOK (synth cfg cs (.cond m c a b)) && scalarTyped cfg cs c && scalarTyped cfg cs a && scalarTyped cfg cs b
+  | n => scalarOK (synth cfg cs n)
 
 /-- the environment value holds, under every name the checker types as a scalar, a value of that type -/
 def EnvConforms (cfg : CheckCfg) (env : Val) : Prop :=
   ∀ name ns τ, identRule cfg name ns = .ok τ → ScalarT τ →
     ∃ v, fetchV env (.str name) ns = .ok v ∧ ValOfK v τ.kind
 
-/-- evaluating `n'` yields a value of kind `k`, or fails with a division by zero -/
-def EvalOK (c : SCfg) (n' : Node) (k : RKind) : Prop :=
-  ∀ ctx s, match (eval c ctx n' s).1 with
+/-- evaluating `n'` yields a value of kind `k`, or fails with one of the tolerated failures `E` -/
+def EvalOK (E : ErrClass → Prop) (P : Ctx → Prop) (c : SCfg) (n' : Node) (k : RKind) : Prop :=
+  ∀ ctx, P ctx → ∀ s, match (eval c ctx n' s).1 with
     | .ok v => ValOfK v k
-    | .error e => e = .divzero
+    | .error e => E e
 
-def FragSpec (cfg : CheckCfg) (c : SCfg) (n : Node) : Prop :=
-  ∀ τ, synth cfg [] n = some τ → ∀ st,
-    (visit cfg n st).2.1 = τ ∧ (visit cfg n st).1.kd = τ.kind ∧ EvalOK c (visit cfg n st).1 τ.kind
+def FragSpec (E : ErrClass → Prop) (P : Ctx → Prop) (cfg : CheckCfg) (cs : List OTy) (c : SCfg) (n : Node) : Prop :=
+  ∀ τ, synth cfg cs n = some τ → ScalarT τ → ∀ st, st.colls = cs →
+    (visit cfg n st).2.1 = τ ∧ (visit cfg n st).1.kd = τ.kind ∧ EvalOK E P c (visit cfg n st).1 τ.kind
+
+theorem visit_colls (cfg : CheckCfg) (n : Node) (st : CState) : (visit cfg n st).2.2.colls = st.colls :=
+  (visit_spec cfg n st).1
 
 theorem toOption'_some {r : Rule} {τ : OTy} (h : Except.toOption' r = some τ) : r = .ok τ := by
   cases r with
@@ -231,37 +237,38 @@ theorem toOption'_some {r : Rule} {τ : OTy} (h : Except.toOption' r = some τ) 
 
 theorem orFail_ok (τ : OTy) (loc : Loc) (st : CState) : orFail (.ok τ) loc st = (τ, st) := rfl
 
-theorem frag_unary (cfg : CheckCfg) (c : SCfg) (m : Meta) (op : String) (x : Node)
-    (hop : fragUnary op = true) (hsc : scalarTyped cfg (.unary m op x) = true) (ih : FragSpec cfg c x) :
-    FragSpec cfg c (.unary m op x) := by
-  intro τ hs st
+theorem frag_unary (cfg : CheckCfg) (cs : List OTy) (c : SCfg) (m : Meta) (op : String) (x : Node)
+    (hop : fragUnary op = true) (hsc : scalarTyped cfg cs (.unary m op x) = true) (ih : FragSpec E P cfg cs c x) :
+    FragSpec E P cfg cs c (.unary m op x) := by
+  intro τ hs _ st hst
   simp only [scalarTyped, Bool.and_eq_true] at hsc
   obtain ⟨hτs, hxs⟩ := hsc
   rw [hs] at hτs
   simp only [synth] at hs
-  cases hsx : synth cfg [] x with
+  cases hsx : synth cfg cs x with
   | none => rw [hsx] at hs; cases hs
   | some t =>
     rw [hsx] at hs
     simp only [] at hs
     have hrule := toOption'_some hs
-    obtain ⟨e1, e2, ev⟩ := ih t hsx st
+    -- the type of the operand is scalar
+    have hts0 : ScalarT t := by
+      have : scalarOK (synth cfg cs x) = true := by
+        cases x <;> simp only [scalarTyped, Bool.and_eq_true] at hxs <;> first | exact hxs | exact hxs.1 | exact hxs.1.1 | exact hxs.1.1.1
+      rw [hsx] at this; exact this
+    obtain ⟨e1, e2, ev⟩ := ih t hsx hts0 st hst
     rcases hx : visit cfg x st with ⟨x', t', st1⟩
     rw [hx] at e1 e2 ev
     simp only [] at e1 e2 ev
     subst e1
     simp only [visit, hx, hrule, orFail_ok]
     refine ⟨trivial, setKd_kd _ _, ?_⟩
-    -- the type of the operand is scalar
-    have hts : ScalarT t' := by
-      have : scalarOK (synth cfg [] x) = true := by
-        cases x <;> simp only [scalarTyped, Bool.and_eq_true] at hxs <;> first | exact hxs | exact hxs.1 | exact hxs.1.1 | exact hxs.1.1.1
-      rw [hsx] at this; exact this
-    intro ctx s
-    have evx := ev ctx s
+    have hts : ScalarT t' := hts0
+    intro ctx hctx s
+    have evx := ev ctx hctx s
     show match (eval c ctx (.unary { m with kd := τ.kind } op x') s).1 with
       | .ok v => ValOfK v τ.kind
-      | .error e => e = .divzero
+      | .error e => E e
     simp only [eval, bind, SM.bind']
     rcases hev : eval c ctx x' s with ⟨r, s'⟩
     rw [hev] at evx
@@ -306,15 +313,15 @@ theorem frag_unary (cfg : CheckCfg) (c : SCfg) (m : Meta) (op : String) (x : Nod
 /-! ### evaluation of the binary operators on typed operands -/
 
 /-- both operands are evaluated, then `tail a b` decides: the common shape of the strict operators -/
-theorem strict_binary (c : SCfg) (l r : Node) (kl kr k : RKind) (hl : EvalOK c l kl) (hr : EvalOK c r kr)
+theorem strict_binary (c : SCfg) (l r : Node) (kl kr k : RKind) (hl : EvalOK E P c l kl) (hr : EvalOK E P c r kr)
     (tail : Val → Val → SM Val)
     (htail : ∀ a b s, ValOfK a kl → ValOfK b kr →
-      match (tail a b s).1 with | .ok v => ValOfK v k | .error e => e = .divzero)
-    (ctx : Ctx) (s : SState) :
+      match (tail a b s).1 with | .ok v => ValOfK v k | .error e => E e)
+    (ctx : Ctx) (hctx : P ctx) (s : SState) :
     match (((eval c ctx l).bind' fun a => (eval c ctx r).bind' fun b => tail a b) s).1 with
     | .ok v => ValOfK v k
-    | .error e => e = .divzero := by
-  have h1 := hl ctx s
+    | .error e => E e := by
+  have h1 := hl ctx hctx s
   unfold SM.bind'
   rcases hel : eval c ctx l s with ⟨ra, s1⟩
   rw [hel] at h1
@@ -322,7 +329,7 @@ theorem strict_binary (c : SCfg) (l r : Node) (kl kr k : RKind) (hl : EvalOK c l
   | error e => exact h1
   | ok a =>
     simp only [] at h1 ⊢
-    have h2 := hr ctx s1
+    have h2 := hr ctx hctx s1
     rcases her : eval c ctx r s1 with ⟨rb, s2⟩
     rw [her] at h2
     cases rb with
@@ -331,11 +338,11 @@ theorem strict_binary (c : SCfg) (l r : Node) (kl kr k : RKind) (hl : EvalOK c l
 
 theorem evalOK_cmp_num (c : SCfg) (m : Meta) (op : String) (l r : Node) (ka kb : Kind)
     (hop : op = "<" ∨ op = ">" ∨ op = "<=" ∨ op = ">=")
-    (hl : EvalOK c l (.num ka)) (hr : EvalOK c r (.num kb)) : EvalOK c (.binary m op l r) .bool := by
-  intro ctx s
+    (hl : EvalOK E P c l (.num ka)) (hr : EvalOK E P c r (.num kb)) : EvalOK E P c (.binary m op l r) .bool := by
+  intro ctx hctx s
   rcases hop with rfl | rfl | rfl | rfl <;>
     simp (config := {decide := true}) only [eval, bind, if_false, binArith] <;>
-    refine strict_binary c l r _ _ _ hl hr _ ?_ ctx s <;> intro a b s' ha hb
+    refine strict_binary c l r _ _ _ hl hr _ ?_ ctx hctx s <;> intro a b s' ha hb
   · obtain ⟨rr, hrr⟩ := binHelper_cmp_num ha hb .less (Or.inl rfl)
     simp only [SM.lift, hrr, SM.pure']; exact ⟨rr, rfl⟩
   · obtain ⟨rr, hrr⟩ := binHelper_cmp_num ha hb .more (Or.inr (Or.inl rfl))
@@ -347,11 +354,11 @@ theorem evalOK_cmp_num (c : SCfg) (m : Meta) (op : String) (l r : Node) (ka kb :
 
 theorem evalOK_cmp_str (c : SCfg) (m : Meta) (op : String) (l r : Node)
     (hop : op = "<" ∨ op = ">" ∨ op = "<=" ∨ op = ">=")
-    (hl : EvalOK c l .string) (hr : EvalOK c r .string) : EvalOK c (.binary m op l r) .bool := by
-  intro ctx s
+    (hl : EvalOK E P c l .string) (hr : EvalOK E P c r .string) : EvalOK E P c (.binary m op l r) .bool := by
+  intro ctx hctx s
   rcases hop with rfl | rfl | rfl | rfl <;>
     simp (config := {decide := true}) only [eval, bind, if_false, binArith] <;>
-    refine strict_binary c l r _ _ _ hl hr _ ?_ ctx s <;> intro a b s' ha hb <;>
+    refine strict_binary c l r _ _ _ hl hr _ ?_ ctx hctx s <;> intro a b s' ha hb <;>
     obtain ⟨x, rfl⟩ := ha <;> obtain ⟨y, rfl⟩ := hb
   · obtain ⟨rr, hrr⟩ := binHelper_str x y .less (Or.inl rfl)
     simp only [SM.lift, hrr, SM.pure']; exact ⟨rr, rfl⟩
@@ -362,23 +369,23 @@ theorem evalOK_cmp_str (c : SCfg) (m : Meta) (op : String) (l r : Node)
   · obtain ⟨rr, hrr⟩ := binHelper_str x y .moreOrEqual (Or.inr (Or.inr (Or.inr rfl)))
     simp only [SM.lift, hrr, SM.pure']; exact ⟨rr, rfl⟩
 
-theorem evalOK_arith (c : SCfg) (m : Meta) (op : String) (l r : Node) (ka kb : Kind)
+theorem evalOK_arith (hE : E .divzero) (c : SCfg) (m : Meta) (op : String) (l r : Node) (ka kb : Kind)
     (hop : op = "+" ∨ op = "-" ∨ op = "*" ∨ op = "/" ∨ (op = "%" ∧ ka.isFloat = false ∧ kb.isFloat = false))
-    (hl : EvalOK c l (.num ka)) (hr : EvalOK c r (.num kb)) :
-    EvalOK c (.binary m op l r) (.num (Kind.maxRank ka kb)) := by
-  intro ctx s
+    (hl : EvalOK E P c l (.num ka)) (hr : EvalOK E P c r (.num kb)) :
+    EvalOK E P c (.binary m op l r) (.num (Kind.maxRank ka kb)) := by
+  intro ctx hctx s
   have fin : ∀ (h : Helper), (h = .add ∨ h = .subtract ∨ h = .multiply ∨ h = .divide ∨
         (h = .modulo ∧ ka.isFloat = false ∧ kb.isFloat = false)) →
       ∀ a b s', ValOfK a (.num ka) → ValOfK b (.num kb) →
       match ((SM.lift (binHelper h a b) : SM Val) s').1 with
-      | .ok v => ValOfK v (.num (Kind.maxRank ka kb)) | .error e => e = .divzero := by
+      | .ok v => ValOfK v (.num (Kind.maxRank ka kb)) | .error e => E e := by
     intro h hh a b s' ha hb
     rcases binHelper_arith ha hb h hh with ⟨v, hv, hk⟩ | he
     · simp only [SM.lift, hv, SM.pure']; exact hk
-    · simp only [SM.lift, he, SM.fail]
+    · simp only [SM.lift, he, SM.fail]; exact hE
   rcases hop with rfl | rfl | rfl | rfl | ⟨rfl, f1, f2⟩ <;>
     simp (config := {decide := true}) only [eval, bind, if_false, binArith] <;>
-    refine strict_binary c l r _ _ _ hl hr _ ?_ ctx s
+    refine strict_binary c l r _ _ _ hl hr _ ?_ ctx hctx s
   · exact fin .add (Or.inl rfl)
   · exact fin .subtract (Or.inr (Or.inl rfl))
   · exact fin .multiply (Or.inr (Or.inr (Or.inl rfl)))
@@ -386,10 +393,10 @@ theorem evalOK_arith (c : SCfg) (m : Meta) (op : String) (l r : Node) (ka kb : K
   · exact fin .modulo (Or.inr (Or.inr (Or.inr (Or.inr ⟨rfl, f1, f2⟩))))
 
 theorem evalOK_concat (c : SCfg) (m : Meta) (l r : Node)
-    (hl : EvalOK c l .string) (hr : EvalOK c r .string) : EvalOK c (.binary m "+" l r) .string := by
-  intro ctx s
+    (hl : EvalOK E P c l .string) (hr : EvalOK E P c r .string) : EvalOK E P c (.binary m "+" l r) .string := by
+  intro ctx hctx s
   simp (config := {decide := true}) only [eval, bind, if_false, binArith]
-  refine strict_binary c l r _ _ _ hl hr _ ?_ ctx s
+  refine strict_binary c l r _ _ _ hl hr _ ?_ ctx hctx s
   intro a b s' ha hb
   obtain ⟨x, rfl⟩ := ha
   obtain ⟨y, rfl⟩ := hb
@@ -398,11 +405,11 @@ theorem evalOK_concat (c : SCfg) (m : Meta) (l r : Node)
 
 theorem evalOK_strop (c : SCfg) (m : Meta) (op : String) (l r : Node)
     (hop : op = "contains" ∨ op = "startsWith" ∨ op = "endsWith")
-    (hl : EvalOK c l .string) (hr : EvalOK c r .string) : EvalOK c (.binary m op l r) .bool := by
-  intro ctx s
+    (hl : EvalOK E P c l .string) (hr : EvalOK E P c r .string) : EvalOK E P c (.binary m op l r) .bool := by
+  intro ctx hctx s
   rcases hop with rfl | rfl | rfl <;>
     simp (config := {decide := true}) only [eval, bind, if_false, if_true] <;>
-    refine strict_binary c l r _ _ _ hl hr _ ?_ ctx s <;> intro a b s' ha hb <;>
+    refine strict_binary c l r _ _ _ hl hr _ ?_ ctx hctx s <;> intro a b s' ha hb <;>
     obtain ⟨x, rfl⟩ := ha <;> obtain ⟨y, rfl⟩ := hb <;>
     simp only [SM.lift, strOp, SM.pure'] <;> exact ⟨_, rfl⟩
 
@@ -411,11 +418,11 @@ compiler selects from the operands' annotations -/
 theorem evalOK_eq (c : SCfg) (m : Meta) (op : String) (l r : Node) (kl kr : RKind)
     (hop : op = "==" ∨ op = "!=") (hsl : kl.isScalar = true) (hsr : kr.isScalar = true)
     (hkl : l.kd = kl) (hkr : r.kd = kr)
-    (hl : EvalOK c l kl) (hr : EvalOK c r kr) : EvalOK c (.binary m op l r) .bool := by
-  intro ctx s
+    (hl : EvalOK E P c l kl) (hr : EvalOK E P c r kr) : EvalOK E P c (.binary m op l r) .bool := by
+  intro ctx hctx s
   rcases hop with rfl | rfl <;>
     simp (config := {decide := true}) only [eval, bind, if_false, if_true] <;>
-    refine strict_binary c l r _ _ _ hl hr _ ?_ ctx s <;> intro a b s' ha hb
+    refine strict_binary c l r _ _ _ hl hr _ ?_ ctx hctx s <;> intro a b s' ha hb
   · rw [hkl, hkr]
     by_cases h1 : (kl == kr && kl == RKind.num Kind.int) = true
     · simp only [h1, if_true]
@@ -440,9 +447,9 @@ theorem evalOK_eq (c : SCfg) (m : Meta) (op : String) (l r : Node) (kl kr : RKin
 
 theorem evalOK_logic (c : SCfg) (m : Meta) (op : String) (l r : Node)
     (hop : op = "and" ∨ op = "&&" ∨ op = "or" ∨ op = "||")
-    (hl : EvalOK c l .bool) (hr : EvalOK c r .bool) : EvalOK c (.binary m op l r) .bool := by
-  intro ctx s
-  have h1 := hl ctx s
+    (hl : EvalOK E P c l .bool) (hr : EvalOK E P c r .bool) : EvalOK E P c (.binary m op l r) .bool := by
+  intro ctx hctx s
+  have h1 := hl ctx hctx s
   rcases hop with rfl | rfl | rfl | rfl <;>
     simp (config := {decide := true}) only [eval, bind, if_false, if_true] <;>
     unfold SM.bind' <;>
@@ -451,7 +458,7 @@ theorem evalOK_logic (c : SCfg) (m : Meta) (op : String) (l r : Node)
     | error e => exact h1
     | ok a =>
       obtain ⟨b, rfl⟩ := h1
-      cases b <;> simp only [asBool, SM.pure', pure] <;> first | exact hr ctx s1 | exact ⟨_, rfl⟩
+      cases b <;> simp only [asBool, SM.pure', pure] <;> first | exact hr ctx hctx s1 | exact ⟨_, rfl⟩
 
 /-! ### the rules deliver the kinds the operators need -/
 
@@ -466,19 +473,30 @@ theorem combinedT_kind {lt rt : OTy} {ka kb : Kind} (hl : lt.kind = .num ka) (hr
   · have : ¬ (ka.rank + 1 > kb.rank + 1) := by omega
     simp only [this, h, if_false]; exact hr
 
+theorem isInterfaceT_scalar {t : OTy} (h : ScalarT t) : isInterfaceT t = false := by
+  unfold isInterfaceT
+  rw [scalar_deref_kind h]
+  unfold ScalarT at h
+  cases hk : t.kind <;> simp [hk, RKind.isScalar] at h ⊢
+
+theorem combinedR_scalar (dt : TDefects) {lt rt : OTy} (hl : ScalarT lt) (hr : ScalarT rt) :
+    combinedR dt lt rt = combinedT lt rt := by
+  unfold combinedR
+  simp [isInterfaceT_scalar hl, isInterfaceT_scalar hr]
+
 theorem fragBinary_cases {op : String} (h : fragBinary op = true) :
     op = "and" ∨ op = "&&" ∨ op = "or" ∨ op = "||" ∨ op = "==" ∨ op = "!=" ∨ op = "<" ∨ op = ">" ∨
     op = "<=" ∨ op = ">=" ∨ op = "+" ∨ op = "-" ∨ op = "*" ∨ op = "/" ∨ op = "%" ∨ op = "contains" ∨
     op = "startsWith" ∨ op = "endsWith" := by
   simpa [fragBinary, or_assoc] using h
 
-theorem binary_rule_sound (c : SCfg) (dt : TDefects) (m : Meta) (op : String) (l r : Node) (lt rt τ : OTy)
+theorem binary_rule_sound (hE : E .divzero) (c : SCfg) (dt : TDefects) (m : Meta) (op : String) (l r : Node) (lt rt τ : OTy)
     (hop : fragBinary op = true) (hls : ScalarT lt) (hrs : ScalarT rt)
     (hrule : binaryRule dt op lt rt = .ok τ)
     (hkl : l.kd = lt.kind) (hkr : r.kd = rt.kind)
-    (hl : EvalOK c l lt.kind) (hr : EvalOK c r rt.kind) : EvalOK c (.binary m op l r) τ.kind := by
+    (hl : EvalOK E P c l lt.kind) (hr : EvalOK E P c r rt.kind) : EvalOK E P c (.binary m op l r) τ.kind := by
   have logic : ∀ o, (o = "and" ∨ o = "&&" ∨ o = "or" ∨ o = "||") → isBoolT lt = true → isBoolT rt = true →
-      EvalOK c (.binary m o l r) .bool := by
+      EvalOK E P c (.binary m o l r) .bool := by
     intro o ho h1 h2
     have k1 := (isBoolT_scalar hls).1 h1
     have k2 := (isBoolT_scalar hrs).1 h2
@@ -486,7 +504,7 @@ theorem binary_rule_sound (c : SCfg) (dt : TDefects) (m : Meta) (op : String) (l
     exact evalOK_logic c m o l r ho hl hr
   have cmp : ∀ o, (o = "<" ∨ o = ">" ∨ o = "<=" ∨ o = ">=") →
       ((isNumberT lt = true ∧ isNumberT rt = true) ∨ (isStringT lt = true ∧ isStringT rt = true)) →
-      EvalOK c (.binary m o l r) .bool := by
+      EvalOK E P c (.binary m o l r) .bool := by
     intro o ho h
     rcases h with ⟨h1, h2⟩ | ⟨h1, h2⟩
     · obtain ⟨ka, k1⟩ := (isNumberT_scalar hls).1 h1
@@ -498,26 +516,27 @@ theorem binary_rule_sound (c : SCfg) (dt : TDefects) (m : Meta) (op : String) (l
       rw [k1] at hl; rw [k2] at hr
       exact evalOK_cmp_str c m o l r ho hl hr
   have arith : ∀ o, (o = "+" ∨ o = "-" ∨ o = "*" ∨ o = "/") → isNumberT lt = true → isNumberT rt = true →
-      EvalOK c (.binary m o l r) (combinedT lt rt).kind := by
+      EvalOK E P c (.binary m o l r) (combinedR dt lt rt).kind := by
     intro o ho h1 h2
+    rw [combinedR_scalar dt hls hrs]
     obtain ⟨ka, k1⟩ := (isNumberT_scalar hls).1 h1
     obtain ⟨kb, k2⟩ := (isNumberT_scalar hrs).1 h2
     rw [combinedT_kind k1 k2]
     rw [k1] at hl; rw [k2] at hr
-    refine evalOK_arith c m o l r ka kb ?_ hl hr
+    refine evalOK_arith hE c m o l r ka kb ?_ hl hr
     rcases ho with e | e | e | e
     · exact Or.inl e
     · exact Or.inr (Or.inl e)
     · exact Or.inr (Or.inr (Or.inl e))
     · exact Or.inr (Or.inr (Or.inr (Or.inl e)))
   have strop : ∀ o, (o = "contains" ∨ o = "startsWith" ∨ o = "endsWith") → isStringT lt = true →
-      isStringT rt = true → EvalOK c (.binary m o l r) .bool := by
+      isStringT rt = true → EvalOK E P c (.binary m o l r) .bool := by
     intro o ho h1 h2
     have k1 := (isStringT_scalar hls).1 h1
     have k2 := (isStringT_scalar hrs).1 h2
     rw [k1] at hl; rw [k2] at hr
     exact evalOK_strop c m o l r ho hl hr
-  have eqop : ∀ o, (o = "==" ∨ o = "!=") → EvalOK c (.binary m o l r) .bool :=
+  have eqop : ∀ o, (o = "==" ∨ o = "!=") → EvalOK E P c (.binary m o l r) .bool :=
     fun o ho => evalOK_eq c m o l r _ _ ho hls hrs hkl hkr hl hr
   rcases fragBinary_cases hop with rfl | rfl | rfl | rfl | rfl | rfl | rfl | rfl | rfl | rfl | rfl | rfl | rfl |
       rfl | rfl | rfl | rfl | rfl
@@ -600,9 +619,9 @@ theorem binary_rule_sound (c : SCfg) (dt : TDefects) (m : Meta) (op : String) (l
       cases hrule
       obtain ⟨ka, k1, f1⟩ := (isIntegerT_scalar hls).1 hc.1
       obtain ⟨kb, k2, f2⟩ := (isIntegerT_scalar hrs).1 hc.2
-      rw [combinedT_kind k1 k2]
+      rw [combinedR_scalar dt hls hrs, combinedT_kind k1 k2]
       rw [k1] at hl; rw [k2] at hr
-      exact evalOK_arith c m "%" l r ka kb (Or.inr (Or.inr (Or.inr (Or.inr ⟨rfl, f1, f2⟩)))) hl hr
+      exact evalOK_arith hE c m "%" l r ka kb (Or.inr (Or.inr (Or.inr (Or.inr ⟨rfl, f1, f2⟩)))) hl hr
     · cases hrule
   -- contains startsWith endsWith
   · simp [binaryRule] at hrule
@@ -620,44 +639,47 @@ theorem binary_rule_sound (c : SCfg) (dt : TDefects) (m : Meta) (op : String) (l
 
 /-! ### the induction over the fragment -/
 
-theorem scalarTyped_self (cfg : CheckCfg) (n : Node) (h : scalarTyped cfg n = true) :
-    scalarOK (synth cfg [] n) = true := by
+theorem scalarTyped_self (cfg : CheckCfg) (cs : List OTy) (n : Node) (h : scalarTyped cfg cs n = true) :
+    scalarOK (synth cfg cs n) = true := by
   cases n <;> simp only [scalarTyped, Bool.and_eq_true] at h <;>
     first | exact h | exact h.1 | exact h.1.1 | exact h.1.1.1
 
-theorem frag_binary (cfg : CheckCfg) (c : SCfg) (m : Meta) (op : String) (l r : Node)
-    (hop : fragBinary op = true) (hsc : scalarTyped cfg (.binary m op l r) = true)
-    (ihl : FragSpec cfg c l) (ihr : FragSpec cfg c r) : FragSpec cfg c (.binary m op l r) := by
-  intro τ hs st
+theorem frag_binary (hE : E .divzero) (cfg : CheckCfg) (cs : List OTy) (c : SCfg) (m : Meta) (op : String) (l r : Node)
+    (hop : fragBinary op = true) (hsc : scalarTyped cfg cs (.binary m op l r) = true)
+    (ihl : FragSpec E P cfg cs c l) (ihr : FragSpec E P cfg cs c r) : FragSpec E P cfg cs c (.binary m op l r) := by
+  intro τ hs _ st hst
   simp only [scalarTyped, Bool.and_eq_true] at hsc
   obtain ⟨⟨_, hlsc⟩, hrsc⟩ := hsc
   simp only [synth] at hs
-  cases hsl : synth cfg [] l with
+  cases hsl : synth cfg cs l with
   | none => rw [hsl] at hs; cases hs
   | some lt =>
-    cases hsr : synth cfg [] r with
+    cases hsr : synth cfg cs r with
     | none => rw [hsl, hsr] at hs; cases hs
     | some rt =>
       rw [hsl, hsr] at hs
       simp only [] at hs
       have hrule := toOption'_some hs
-      obtain ⟨e1, k1, ev1⟩ := ihl lt hsl st
+      have hls0 : ScalarT lt := by
+        have := scalarTyped_self cfg cs l hlsc; rw [hsl] at this; exact this
+      have hrs0 : ScalarT rt := by
+        have := scalarTyped_self cfg cs r hrsc; rw [hsr] at this; exact this
+      obtain ⟨e1, k1, ev1⟩ := ihl lt hsl hls0 st hst
+      have hst1 := visit_colls cfg l st
       rcases hl : visit cfg l st with ⟨l', lt', st1⟩
-      rw [hl] at e1 k1 ev1
-      simp only [] at e1 k1 ev1
+      rw [hl] at e1 k1 ev1 hst1
+      simp only [] at e1 k1 ev1 hst1
       subst e1
-      obtain ⟨e2, k2, ev2⟩ := ihr rt hsr st1
+      obtain ⟨e2, k2, ev2⟩ := ihr rt hsr hrs0 st1 (hst1.trans hst)
       rcases hr : visit cfg r st1 with ⟨r', rt', st2⟩
       rw [hr] at e2 k2 ev2
       simp only [] at e2 k2 ev2
       subst e2
       simp only [visit, hl, hr, hrule, orFail_ok]
       refine ⟨trivial, setKd_kd _ _, ?_⟩
-      have hls : ScalarT lt' := by
-        have := scalarTyped_self cfg l hlsc; rw [hsl] at this; exact this
-      have hrs : ScalarT rt' := by
-        have := scalarTyped_self cfg r hrsc; rw [hsr] at this; exact this
-      exact binary_rule_sound c cfg.dt { m with kd := τ.kind } op l' r' lt' rt' τ hop hls hrs hrule k1 k2 ev1 ev2
+      have hls : ScalarT lt' := hls0
+      have hrs : ScalarT rt' := hrs0
+      exact binary_rule_sound hE c cfg.dt { m with kd := τ.kind } op l' r' lt' rt' τ hop hls hrs hrule k1 k2 ev1 ev2
 
 theorem assignable_scalar_kind {x y : Ty} (hx : ScalarT (some x)) (hy : ScalarT (some y))
     (h : assignableTo x y = true) : x.kind = y.kind := by
@@ -678,41 +700,49 @@ theorem assignable_scalar_kind {x y : Ty} (hx : ScalarT (some x)) (hy : ScalarT 
     rw [this] at hy'
     simp [RKind.isScalar] at hy'
 
-theorem frag_cond (cfg : CheckCfg) (c : SCfg) (m : Meta) (cn a b : Node)
-    (hsc : scalarTyped cfg (.cond m cn a b) = true)
-    (ihc : FragSpec cfg c cn) (iha : FragSpec cfg c a) (ihb : FragSpec cfg c b) :
-    FragSpec cfg c (.cond m cn a b) := by
-  intro τ hs st
+theorem frag_cond (cfg : CheckCfg) (cs : List OTy) (c : SCfg) (m : Meta) (cn a b : Node)
+    (hsc : scalarTyped cfg cs (.cond m cn a b) = true)
+    (ihc : FragSpec E P cfg cs c cn) (iha : FragSpec E P cfg cs c a) (ihb : FragSpec E P cfg cs c b) :
+    FragSpec E P cfg cs c (.cond m cn a b) := by
+  intro τ hs _ st hst
   simp only [scalarTyped, Bool.and_eq_true] at hsc
   obtain ⟨⟨⟨hτs, hcsc⟩, hasc⟩, hbsc⟩ := hsc
   rw [hs] at hτs
   simp only [synth] at hs
-  cases hsc' : synth cfg [] cn with
+  cases hsc' : synth cfg cs cn with
   | none => rw [hsc'] at hs; cases hs
   | some ct =>
     rw [hsc'] at hs
     simp only [] at hs
     by_cases hb : isBoolT ct = true
     · simp only [hb, Bool.not_true, Bool.false_eq_true, if_false] at hs
-      cases hsa : synth cfg [] a with
+      cases hsa : synth cfg cs a with
       | none => rw [hsa] at hs; cases hs
       | some t1 =>
-        cases hsb : synth cfg [] b with
+        cases hsb : synth cfg cs b with
         | none => rw [hsa, hsb] at hs; cases hs
         | some t2 =>
           rw [hsa, hsb] at hs
           simp only [Option.some.injEq] at hs
-          obtain ⟨e0, _, ev0⟩ := ihc ct hsc' st
+          have hcs0 : ScalarT ct := by
+            have := scalarTyped_self cfg cs cn hcsc; rw [hsc'] at this; exact this
+          have h1s0 : ScalarT t1 := by
+            have := scalarTyped_self cfg cs a hasc; rw [hsa] at this; exact this
+          have h2s0 : ScalarT t2 := by
+            have := scalarTyped_self cfg cs b hbsc; rw [hsb] at this; exact this
+          obtain ⟨e0, _, ev0⟩ := ihc ct hsc' hcs0 st hst
+          have hst1 := visit_colls cfg cn st
           rcases hcv : visit cfg cn st with ⟨cn', ct', st1⟩
-          rw [hcv] at e0 ev0
-          simp only [] at e0 ev0
+          rw [hcv] at e0 ev0 hst1
+          simp only [] at e0 ev0 hst1
           subst e0
-          obtain ⟨e1, _, ev1⟩ := iha t1 hsa st1
+          obtain ⟨e1, _, ev1⟩ := iha t1 hsa h1s0 st1 (hst1.trans hst)
+          have hst2 := visit_colls cfg a st1
           rcases hav : visit cfg a st1 with ⟨a', t1', st2⟩
-          rw [hav] at e1 ev1
-          simp only [] at e1 ev1
+          rw [hav] at e1 ev1 hst2
+          simp only [] at e1 ev1 hst2
           subst e1
-          obtain ⟨e2, _, ev2⟩ := ihb t2 hsb st2
+          obtain ⟨e2, _, ev2⟩ := ihb t2 hsb h2s0 st2 (hst2.trans (hst1.trans hst))
           rcases hbv : visit cfg b st2 with ⟨b', t2', st3⟩
           rw [hbv] at e2 ev2
           simp only [] at e2 ev2
@@ -721,20 +751,22 @@ theorem frag_cond (cfg : CheckCfg) (c : SCfg) (m : Meta) (cn a b : Node)
           rw [hs]
           refine ⟨rfl, setKd_kd _ _, ?_⟩
           -- the kinds of the two branches agree with the kind of the result
-          have hcs : ScalarT ct' := by
-            have := scalarTyped_self cfg cn hcsc; rw [hsc'] at this; exact this
-          have h1s : ScalarT t1' := by
-            have := scalarTyped_self cfg a hasc; rw [hsa] at this; exact this
-          have h2s : ScalarT t2' := by
-            have := scalarTyped_self cfg b hbsc; rw [hsb] at this; exact this
+          have hcs : ScalarT ct' := hcs0
+          have h1s : ScalarT t1' := h1s0
+          have h2s : ScalarT t2' := h2s0
           obtain ⟨x, rfl⟩ := scalar_some h1s
           obtain ⟨y, rfl⟩ := scalar_some h2s
           have hkinds : τ.kind = OTy.kind (some x) ∧ τ.kind = OTy.kind (some y) := by
             rw [← hs]
             simp only [condType]
             by_cases has : assignableTo x y = true
-            · simp only [has, if_true]
-              exact ⟨trivial, assignable_scalar_kind h1s h2s has⟩
+            · have hxy := assignable_scalar_kind h1s h2s has
+              by_cases hf : cfg.dt.condFirstBranchType = true
+              · simp only [has, hf, if_true]
+                exact ⟨trivial, hxy⟩
+              · have hf' : cfg.dt.condFirstBranchType = false := by simpa using hf
+                simp only [has, hf', if_true, Bool.false_eq_true, if_false]
+                exact ⟨hxy.symm, trivial⟩
             · -- the result type would be interface{}: not scalar
               exfalso
               have hτ : τ = ifaceTy := by
@@ -745,13 +777,13 @@ theorem frag_cond (cfg : CheckCfg) (c : SCfg) (m : Meta) (cn a b : Node)
           rw [hck] at ev0
           rw [← hkinds.1] at ev1
           rw [← hkinds.2] at ev2
-          intro ctx s
+          intro ctx hctx s
           show match (eval c ctx (.cond { m with kd := τ.kind } cn' a' b') s).1 with
             | .ok v => ValOfK v τ.kind
-            | .error e => e = .divzero
+            | .error e => E e
           simp only [eval, bind]
           unfold SM.bind'
-          have h0 := ev0 ctx s
+          have h0 := ev0 ctx hctx s
           rcases hev : eval c ctx cn' s with ⟨rc, s1⟩
           rw [hev] at h0
           cases rc with
@@ -759,79 +791,79 @@ theorem frag_cond (cfg : CheckCfg) (c : SCfg) (m : Meta) (cn a b : Node)
           | ok v =>
             obtain ⟨bv, rfl⟩ := h0
             cases bv <;> simp only [asBool, SM.pure', pure]
-            · exact ev2 ctx s1
-            · exact ev1 ctx s1
+            · exact ev2 ctx hctx s1
+            · exact ev1 ctx hctx s1
     · simp only [hb] at hs
       simp at hs
 
-theorem frag_ident (cfg : CheckCfg) (c : SCfg) (henv : EnvConforms cfg c.env) (m : Meta) (name : String)
-    (ns : Bool) (hsc : scalarTyped cfg (.ident m name ns) = true) : FragSpec cfg c (.ident m name ns) := by
-  intro τ hs st
+theorem frag_ident (cfg : CheckCfg) (cs : List OTy) (c : SCfg) (henv : EnvConforms cfg c.env) (m : Meta) (name : String)
+    (ns : Bool) (hsc : scalarTyped cfg cs (.ident m name ns) = true) : FragSpec E P cfg cs c (.ident m name ns) := by
+  intro τ hs _ st _
   simp only [scalarTyped] at hsc
   rw [hs] at hsc
   simp only [synth] at hs
   have hrule := toOption'_some hs
   simp only [visit, hrule, orFail_ok]
   refine ⟨trivial, setKd_kd _ _, ?_⟩
-  intro ctx s
+  intro ctx hctx s
   show match (eval c ctx (.ident { m with kd := τ.kind } name ns) s).1 with
     | .ok v => ValOfK v τ.kind
-    | .error e => e = .divzero
+    | .error e => E e
   obtain ⟨v, hv, hk⟩ := henv name ns τ hrule hsc
   simp only [eval, SM.lift, hv, SM.pure']
   exact hk
 
 /-- **Soundness on the scalar fragment**, by structural recursion over the tree. -/
-theorem frag_sound (cfg : CheckCfg) (c : SCfg) (henv : EnvConforms cfg c.env) :
-    ∀ n : Node, inFrag n = true → scalarTyped cfg n = true → FragSpec cfg c n
+theorem frag_sound (hE : E .divzero) (cfg : CheckCfg) (cs : List OTy) (c : SCfg) (henv : EnvConforms cfg c.env) :
+    ∀ n : Node, inFrag n = true → scalarTyped cfg cs n = true → FragSpec E P cfg cs c n
   | .bool m b, _, _ => by
-    intro τ hs st
+    intro τ hs _ st _
     simp only [synth, Option.some.injEq] at hs
     subst hs
     simp only [visit]
-    exact ⟨trivial, setKd_kd _ _, fun ctx s => ⟨b, rfl⟩⟩
+    exact ⟨trivial, setKd_kd _ _, fun ctx _ s => ⟨b, rfl⟩⟩
   | .str m x, _, _ => by
-    intro τ hs st
+    intro τ hs _ st _
     simp only [synth, Option.some.injEq] at hs
     subst hs
     simp only [visit]
-    exact ⟨trivial, setKd_kd _ _, fun ctx s => ⟨x, rfl⟩⟩
+    exact ⟨trivial, setKd_kd _ _, fun ctx _ s => ⟨x, rfl⟩⟩
   | .int m v, _, _ => by
-    intro τ hs st
+    intro τ hs _ st _
     simp only [synth, Option.some.injEq] at hs
     subst hs
     simp only [visit]
-    exact ⟨trivial, setKd_kd _ _, fun ctx s => ⟨_, rfl⟩⟩
+    exact ⟨trivial, setKd_kd _ _, fun ctx _ s => ⟨_, rfl⟩⟩
   | .float m x, _, _ => by
-    intro τ hs st
+    intro τ hs _ st _
     simp only [synth, Option.some.injEq] at hs
     subst hs
     simp only [visit]
-    exact ⟨trivial, setKd_kd _ _, fun ctx s => ⟨_, rfl⟩⟩
-  | .ident m name ns, _, hsc => frag_ident cfg c henv m name ns hsc
+    exact ⟨trivial, setKd_kd _ _, fun ctx _ s => ⟨_, rfl⟩⟩
+  | .ident m name ns, _, hsc => frag_ident cfg cs c henv m name ns hsc
   | .unary m op x, hf, hsc => by
     simp only [inFrag, Bool.and_eq_true] at hf
-    have hx : scalarTyped cfg x = true := by
+    have hx : scalarTyped cfg cs x = true := by
       simp only [scalarTyped, Bool.and_eq_true] at hsc; exact hsc.2
-    exact frag_unary cfg c m op x hf.1 hsc (frag_sound cfg c henv x hf.2 hx)
+    exact frag_unary cfg cs c m op x hf.1 hsc (frag_sound hE cfg cs c henv x hf.2 hx)
   | .binary m op l r, hf, hsc => by
     simp only [inFrag, Bool.and_eq_true] at hf
-    have hl : scalarTyped cfg l = true := by
+    have hl : scalarTyped cfg cs l = true := by
       simp only [scalarTyped, Bool.and_eq_true] at hsc; exact hsc.1.2
-    have hr : scalarTyped cfg r = true := by
+    have hr : scalarTyped cfg cs r = true := by
       simp only [scalarTyped, Bool.and_eq_true] at hsc; exact hsc.2
-    exact frag_binary cfg c m op l r hf.1.1 hsc (frag_sound cfg c henv l hf.1.2 hl)
-      (frag_sound cfg c henv r hf.2 hr)
+    exact frag_binary hE cfg cs c m op l r hf.1.1 hsc (frag_sound hE cfg cs c henv l hf.1.2 hl)
+      (frag_sound hE cfg cs c henv r hf.2 hr)
   | .cond m cn a b, hf, hsc => by
     simp only [inFrag, Bool.and_eq_true] at hf
-    have h1 : scalarTyped cfg cn = true := by
+    have h1 : scalarTyped cfg cs cn = true := by
       simp only [scalarTyped, Bool.and_eq_true] at hsc; exact hsc.1.1.2
-    have h2 : scalarTyped cfg a = true := by
+    have h2 : scalarTyped cfg cs a = true := by
       simp only [scalarTyped, Bool.and_eq_true] at hsc; exact hsc.1.2
-    have h3 : scalarTyped cfg b = true := by
+    have h3 : scalarTyped cfg cs b = true := by
       simp only [scalarTyped, Bool.and_eq_true] at hsc; exact hsc.2
-    exact frag_cond cfg c m cn a b hsc (frag_sound cfg c henv cn hf.1.1 h1)
-      (frag_sound cfg c henv a hf.1.2 h2) (frag_sound cfg c henv b hf.2 h3)
+    exact frag_cond cfg cs c m cn a b hsc (frag_sound hE cfg cs c henv cn hf.1.1 h1)
+      (frag_sound hE cfg cs c henv a hf.1.2 h2) (frag_sound hE cfg cs c henv b hf.2 h3)
   | .nil _, hf, _ | .const _ _, hf, _ | .matches _ _ _ _, hf, _ | .prop _ _ _ _, hf, _
   | .index _ _ _, hf, _ | .slice _ _ _ _, hf, _ | .method _ _ _ _ _, hf, _ | .func _ _ _ _, hf, _
   | .builtin _ _ _, hf, _ | .closure _ _, hf, _ | .pointer _, hf, _ | .array _ _, hf, _
